@@ -126,7 +126,10 @@ impl ModelCheck {
     }
 
     fn exec_sc(&self, sc: &Scenario, kind: &str, keep_log: bool) -> Outcome {
-        let slack = if self.id == "C05" { 0 } else { 1 };
+        // C05 and C08 assert exact instants (an item's expiry; "from n seconds after the flush at
+        // the latest"); elsewhere one second around such an instant is left open, so that an
+        // off-by-one there is reported by these two checks only
+        let slack = if self.id == "C05" || self.id == "C08" { 0 } else { 1 };
         let (viols, mut out) = if kind == "N" {
             execute_n(sc, LossMode::Strict, slack, keep_log)
         } else {
